@@ -23,6 +23,10 @@ def main(argv):
         print(json.dumps({"reproduced": False, "why": "model has non-rational values: %s" % bad}))
         return 2
     r = engine.run_conc(body["harness"], body["params"], model, body["script"], alarm=60.0)
+    if r["status"] == "violation" and str(r["label"]).startswith("replay-script"):
+        # the concrete run left the recorded path (e.g. the symbolic path was cut by its time budget): nothing was reproduced
+        print(json.dumps({"reproduced": False, "why": f"{r['label']}: {r.get('detail', '')}"}))
+        return 0
     if r["status"] == "violation":
         same = r["label"] == body["label"]
         print(json.dumps({"reproduced": True, "label": r["label"], "same_label": same, "detail": r.get("detail", "")}))
